@@ -39,7 +39,25 @@ def member():
     return rnd.choice(FLAGGED)
 
 
-def run_cli(argv, stdin_bytes=None):
+class PipeRaw(io.RawIOBase):
+    """what a real pipe looks like to the reader: not seekable, short reads"""
+
+    def __init__(self, data):
+        self._b = io.BytesIO(data)
+
+    def readable(self):
+        return True
+
+    def seekable(self):
+        return False
+
+    def readinto(self, b):
+        chunk = self._b.read(min(len(b), 64))
+        b[:len(chunk)] = chunk
+        return len(chunk)
+
+
+def run_cli(argv, stdin_bytes=None, pipe=False):
     """-> (status, stdout bytes, stderr text)"""
     class Out(io.TextIOWrapper):
         pass
@@ -49,7 +67,7 @@ def run_cli(argv, stdin_bytes=None):
     so, se, si = sys.stdout, sys.stderr, sys.stdin
     sys.stdout, sys.stderr = out, err
     if stdin_bytes is not None:
-        sys.stdin = io.TextIOWrapper(io.BytesIO(stdin_bytes))
+        sys.stdin = io.TextIOWrapper(io.BufferedReader(PipeRaw(stdin_bytes)) if pipe else io.BytesIO(stdin_bytes))
     try:
         try:
             rc = cli.main(argv)
@@ -96,11 +114,11 @@ for members in stacks:
     for target in range(0, n + 1):
         for run_last in (False, True):
             for replace in (False, True):
-                for via in ("file", "stdin"):
+                for via in ("file", "stdin", "stdin-pipe"):
                     n_runs += 1
                     argv = ["fickling", "--inject", "print('x')", "--inject-target", str(target)] + (["--run-last"] if run_last else []) + \
                            (["--replace-result"] if replace else []) + ([path] if via == "file" else [])
-                    rc, out, err = run_cli(argv, None if via == "file" else data)
+                    rc, out, err = run_cli(argv, None if via == "file" else data, pipe=(via == "stdin-pipe"))
                     case = {"face": "inject", "stack": [m.hex()[:60] for m in members], "target": target, "run_last": run_last, "replace_result": replace, "via": via}
                     if target >= n:
                         if rc in (0, None) or out:
